@@ -610,6 +610,85 @@ def _pick_kind(e, holder):
     return None
 
 
+def check_labels(rep, project):
+    """MT-LABELS — the rows of the thresholded matrix are handed to the matching library under TEXT labels ("0", "1", …, "10");
+    whatever reads the matching back must go through the numbers.  A plain `sorted(...)` / `.sort()` of those labels orders
+    them as text ("10" < "2"), so a list built from it no longer lines up with `range(n)` once there are more than ten rows.
+    Reported when such a sort (no `key=`) reaches the matching that is returned."""
+    from .common import fn_view
+    fi = project.function(BN)
+    f = fn_view(project, fi)
+    # names that hold text labels: dictionary keys written as "{}".format(i) / str(i) / f"{i}", names filtered by isinstance(v, str)
+    def is_label_expr(e):
+        return (isinstance(e, ast.Call) and isinstance(e.func, ast.Attribute) and e.func.attr == "format" and isinstance(e.func.value, ast.Constant)
+                and isinstance(e.func.value.value, str)) or (isinstance(e, ast.Call) and isinstance(e.func, ast.Name) and e.func.id == "str") \
+            or isinstance(e, ast.JoinedStr)
+    labelled = {t.value.id for n in ast.walk(f) if isinstance(n, ast.Assign) for t in n.targets
+                if isinstance(t, ast.Subscript) and isinstance(t.value, ast.Name) and is_label_expr(t.slice)}
+    labelled |= {n.target.id for n in ast.walk(f) if isinstance(n, ast.DictComp) and False}
+    for n in ast.walk(f):
+        if isinstance(n, ast.Assign) and isinstance(n.value, ast.DictComp) and is_label_expr(n.value.key):
+            labelled |= {t.id for t in n.targets if isinstance(t, ast.Name)}
+    if not labelled:
+        return
+    relevant = {x.id for r_ in ast.walk(f) if isinstance(r_, ast.Return) and r_.value is not None
+                for x in ast.walk(r_.value) if isinstance(x, ast.Name)}
+    grew = True
+    while grew:
+        grew = False
+        for st_ in ast.walk(f):
+            if isinstance(st_, ast.Assign):
+                tg = {x.id for t_ in st_.targets for x in ast.walk(t_) if isinstance(x, ast.Name)}
+                if tg & relevant:
+                    new_ = {x.id for x in ast.walk(st_.value) if isinstance(x, ast.Name)}
+                    if not new_ <= relevant:
+                        relevant |= new_
+                        grew = True
+    n_sorts = 0
+    for n in ast.walk(f):
+        if not isinstance(n, ast.Assign) or len(n.targets) != 1 or not isinstance(n.targets[0], ast.Name):
+            continue
+        c = n.value
+        if not (isinstance(c, ast.Call) and isinstance(c.func, ast.Name) and c.func.id == "sorted" and c.args):
+            continue
+        src = c.args[0]
+        over = {x.id for x in ast.walk(src) if isinstance(x, ast.Name)}
+        textual = bool(over & labelled) and not any(isinstance(x, ast.Call) and isinstance(x.func, ast.Name) and x.func.id == "int"
+                                                    for x in ast.walk(src))
+        if not textual:
+            continue
+        n_sorts += 1
+        has_key = any(k.arg == "key" for k in c.keywords)
+        nm_ = n.targets[0].id
+        # rows read back from the labels themselves (`int(v)` for the same v) stay paired with their columns in any order
+        consistent = False
+        for x in ast.walk(f):
+            gens = x.generators if isinstance(x, (ast.ListComp, ast.GeneratorExp, ast.SetComp, ast.DictComp)) else (
+                [x] if isinstance(x, ast.For) else [])
+            for g in gens:
+                it_ = g.iter
+                if isinstance(it_, ast.Name) and it_.id == nm_ and isinstance(g.target, ast.Name):
+                    scope = x if not isinstance(x, ast.For) else ast.Module(body=x.body, type_ignores=[])
+                    if any(isinstance(y, ast.Call) and isinstance(y.func, ast.Name) and y.func.id == "int" and y.args
+                           and isinstance(y.args[0], ast.Name) and y.args[0].id == g.target.id for y in ast.walk(scope)):
+                        consistent = True
+        if has_key:
+            rep.discharged("MT-LABELS", fi, n, "the text labels of the rows are sorted with a key", nontrivial=False)
+        elif consistent:
+            rep.discharged("MT-LABELS", fi, n, "the rows are read back from the sorted labels themselves (int(label)): the order of "
+                                               "the labels does not matter", nontrivial=False)
+        elif n.targets[0].id in relevant:
+            rep.refuted("MT-LABELS", fi, n,
+                        f"`{ast.unparse(n)[:80]}` orders the text labels of the rows as text (\"10\" < \"2\") and the matching that is "
+                        f"returned is read off in that order: from eleven rows on, the columns are paired with the wrong rows and the "
+                        f"costs listed are not those of the matching found",
+                        construct=f"{BN}: lexicographic order of the row labels")
+        else:
+            rep.discharged("MT-LABELS", fi, n, "a sort of the row labels that does not reach the returned matching", nontrivial=False)
+    if not n_sorts:
+        rep.discharged("MT-LABELS", fi, fi.node, "the text labels of the rows are never sorted as text", nontrivial=False)
+
+
 def check_accept(rep, project):
     from .c01 import _while_of
     from .common import fn_view
@@ -783,6 +862,7 @@ def run(project: Project, rep, tier: str):
                "arrays of equal length; exact arithmetic")
     check_bottleneck(rep, project)
     check_accept(rep, project)
+    check_labels(rep, project)
     check_wasserstein(rep, project)
     for r, n in (("MT-NONINT", 2), ("MT-COST", 2), ("MT-MINUS1", 4), ("MT-DROP", 2), ("MT-COVER", 2), ("MT-PROV", 1), ("MT-GRAPH", 1), ("MT-ACCEPT", 1)):
         rep.floor(r, n)
